@@ -157,7 +157,8 @@ def decideOp (c : Ctx) (st : Option Fetched) (everFetched : Bool) (op : Op) (obs
             (if inside ∨ k = 0 ∨ pos f.idx (f.start + k - 1) < c.file.length then none
              else some "truncated-span-returned-data")
           else some ("wrong-data-expected-" ++ toHex (want.take k))
-        | .err _ pre, m =>
+        | .err cls pre, m =>
+          if cls = "endless" then some "iterator-does-not-end" else
           if inside then
             -- a partly consumed iterator may also stop early with an error only if the file is truncated
             some "error-on-valid-request"
